@@ -6,23 +6,24 @@
 (* and its return, and never an answer older than the last write that had RETURNED before the read  *)
 (* was invoked.  The wrapped graph is the sequential store of Store.tla / Lookups.tla.               *)
 (*                                                                                                  *)
-(* Layer B (implementation shaped, storage/memoization/memoization.go): every handle returned by    *)
-(* Store.Graph/NewGraph owns its caches; the cache key is (method, LookupOptions.String(),          *)
-(* argument UUIDs) and LookupOptions.String() does not print Offset; a read is                      *)
+(* Layer B (implementation shaped, storage/memoization/memoization.go).  A read is                  *)
 (*     CheckCache ; ( Replay | Forward ; Fill )                                                     *)
-(* with the handle's mutex RELEASED between the three steps; a write is  Clear ; ForwardWrite ;     *)
-(* Return  with the mutex released after Clear; lookups only ever hit on non-empty cached results   *)
-(* (`if v != nil`), Exist caches both answers; a forwarded lookup that fails still fills the cache. *)
-(* The four named deviations from a transparent design are switches, so that TLC yields one minimal *)
-(* counterexample per deviation and shows that the design with all four switched off is transparent:*)
+(* with the graph's mutex RELEASED between the three steps; a write is  Clear ; ForwardWrite ;      *)
+(* Return; lookups only ever hit on non-empty cached results (`if v != nil`), Exist caches both     *)
+(* answers.  The CURRENT code (all switches FALSE; /repo commits 090f7b2 8547f41 f075fea 1f60917):  *)
+(* the key is (method name, LookupOptions incl. Offset, argument UUIDs); all handles of one graph   *)
+(* share one cache; the writer keeps the mutex from Clear to the end of ForwardWrite and a Fill is  *)
+(* dropped when a Clear happened since CheckCache (generation counter); Fill only after a           *)
+(* successful forwarded read.  Each named deviation is a switch: TLC yields one minimal             *)
+(* counterexample per deviation (the first four are the code as first read - each was confirmed on  *)
+(* the real memoizer and repaired; the fifth is a seeded change, seeded/C19-1) and shows that the   *)
+(* design with all switches off is transparent:                                                     *)
 (*   DevKeyNoOffset    key without Offset                       => class offset-not-in-cache-key    *)
 (*   DevPerHandle      caches per handle, write clears only its own  => write-through-other-handle  *)
 (*   DevUnguardedFill  Fill is not ordered against Clear/ForwardWrite => fill-after-clear           *)
 (*   DevFillOnError    a failed forwarded read fills the cache  => failed-read-cached               *)
-(* With a switch off the model follows the repair proposed in proposed_fixes/: Offset in the key;   *)
-(* one cache per graph shared by the handles; the writer keeps the mutex from Clear to the end of   *)
-(* ForwardWrite and Fill is dropped when a Clear happened since CheckCache (generation counter);    *)
-(* Fill only after a successful forwarded read.                                                     *)
+(*   DevKeyNoMethod    two methods share one key when their argument UUIDs coincide (a node and the *)
+(*                     object boxing it)                        => method-not-in-cache-key          *)
 (*                                                                                                  *)
 (* The same module enumerates ALL schedules of one writer and NR readers (cfg MemoSched*.cfg): the   *)
 (* variable `sched` makes every path a state, a finished path is printed as one JSON line and the   *)
@@ -32,7 +33,7 @@
 (* acceptable answers, so it cannot expose anything the immediate return does not.                  *)
 EXTENDS Store, Lookups, Json, MemoU
 
-CONSTANTS DevKeyNoOffset, DevPerHandle, DevUnguardedFill, DevFillOnError,
+CONSTANTS DevKeyNoOffset, DevPerHandle, DevUnguardedFill, DevFillOnError, DevKeyNoMethod,
           NR,         \* number of readers (1 or 2)
           MaxFaults   \* how many forwarded reads may fail after delivering part of their answer
 
@@ -60,6 +61,10 @@ Procs == 1..(1 + NR)
 TB == 1          \* base triple: present or not in the initial content, never written
 TW == 2          \* the triple the writer adds or removes
 
+\* the object that boxes node n (universe index), 0 if the universe has none
+ObjOfNode(n) == IF \E i \in DOMAIN OB : OB[i].kind = "node" /\ OB[i].ref = n
+                THEN CHOOSE i \in DOMAIN OB : OB[i].kind = "node" /\ OB[i].ref = n ELSE 0
+
 \* ---- requests: Exist(TW), TriplesForSubject with page size 1 at page 0 / page 1, and unpaged ----
 Lk(max, off) == [m |-> "TriplesForSubject", c |-> "t", s |-> TS[TW].s, p |-> 0, o |-> 0, lo |-> 0, hi |-> 0,
                  fop |-> "", ff |-> "predicate", la |-> FALSE, max |-> max, off |-> off, t |-> 0]
@@ -67,6 +72,9 @@ ReqOf(n) == CASE n = "E"  -> [Lk(0, 0) EXCEPT !.m = "Exist", !.s = 0, !.t = TW]
               [] n = "L0" -> Lk(1, 0)
               [] n = "L1" -> Lk(1, 1)
               [] n = "LA" -> Lk(0, 0)
+              \* the same node handed to ANOTHER method as the object boxing it (Object.UUID of a boxed node is the
+              \* node's UUID): TriplesForObject(obj(s)); s is never an object in this universe, so the answer is empty
+              [] n = "LO" -> [Lk(0, 0) EXCEPT !.m = "TriplesForObject", !.s = 0, !.o = ObjOfNode(TS[TW].s)]
 
 RECURSIVE AscSeq(_)
 AscSeq(S) == IF S = {} THEN <<>> ELSE LET m == CHOOSE x \in S : \A y \in S : x <= y
@@ -76,7 +84,11 @@ AscSeq(S) == IF S = {} THEN <<>> ELSE LET m == CHOOSE x \in S : \A y \in S : x <
 Ans(C, q) == IF q.m = "Exist" THEN <<IF q.t \in C THEN 1 ELSE 0>>
              ELSE Page(AscSeq(Result(C, q)), q.max, q.off)
 
-Key(q) == IF DevKeyNoOffset THEN [q EXCEPT !.off = 0] ELSE q
+KeyOff(q) == IF DevKeyNoOffset THEN [q EXCEPT !.off = 0] ELSE q
+\* without the method name a key is the options and the argument UUIDs: subject node s and object obj(s) coincide
+Key(q) == IF DevKeyNoMethod /\ q.m \in {"TriplesForSubject", "TriplesForObject"}
+          THEN [KeyOff(q) EXCEPT !.m = "*", !.s = IF q.m = "TriplesForObject" THEN OB[q.o].ref ELSE q.s, !.o = 0]
+          ELSE KeyOff(q)
 CacheOf(h) == IF DevPerHandle THEN h ELSE 1
 Cacheable(q, val) == q.m = "Exist" \/ val # <<>>      \* `if v != nil`: an empty listing never hits
 
